@@ -752,5 +752,39 @@ theorem awake_owner {s s' : ASt} {e : CEv} {o : Outs} (hi : AInv s) (hs : astep 
       injection hm with hm; subst hm
       rw [hs']; exact h3
 
-end SgVerif.C06
+/-! ### the order in which notify_all queues the waiters on their mutexes -/
 
+theorem acquire_mx_other (s : ASt) (a : Aid) (m : Nat) (r : Res) (m' : Nat) (h : m' ≠ m) :
+    (s.acquire a m r).1.mx m' = s.mx m' := by
+  unfold ASt.acquire
+  split <;> simp [upd_ne _ _ h]
+
+/-- after notify_all, the FIFO of every mutex `m` = its old FIFO followed by the woken waiters that wait with `m`, in
+waiting order — minus the first of them when `m` was free (that one takes it and returns); and a busy mutex keeps its
+owner -/
+theorem wakeList_queue (c m : Nat) : ∀ (ws : List AWaiter) (s : ASt),
+    ((s.wakeList c ws).1.mx m).queue =
+      (s.mx m).queue ++ (((ws.filter (fun x => decide (x.mutex = m))).map (fun x => (x.issuer, Res.flag false))).drop
+        (if (s.mx m).owner = none then 1 else 0))
+  | [], s => by simp [ASt.wakeList]
+  | x :: rest, s => by
+    simp only [ASt.wakeList]
+    rw [wakeList_queue c m rest]
+    by_cases hxm : x.mutex = m
+    · subst hxm
+      cases hown : (s.mx x.mutex).owner with
+      | none =>
+        have hf : (({ s with cv := upd s.cv c rest } : ASt).mx x.mutex).owner = none := hown
+        obtain ⟨-, h2, h3, -⟩ := acquire_free _ x.issuer x.mutex (.flag false) hf
+        rw [h2, h3]
+        simp
+      | some o =>
+        have hf : (({ s with cv := upd s.cv c rest } : ASt).mx x.mutex).owner = some o := hown
+        obtain ⟨-, h2, h3, -⟩ := acquire_queued _ x.issuer x.mutex (.flag false) o hf
+        rw [h2, h3]
+        simp
+    · have hne : m ≠ x.mutex := fun e => hxm e.symm
+      rw [acquire_mx_other _ x.issuer x.mutex (.flag false) m hne]
+      simp [hxm]
+
+end SgVerif.C06
